@@ -71,7 +71,7 @@ func e2eRandWorker(args []string) error {
 	var w *e2e.World
 
 	newWorld := func(run int) error {
-		cfg := agent.Cfg{N4Addr: p.N4Addr, Datapath: "bess", LogLevel: "error", ReadTimeout: 120, RespTimeout: "2s", MaxReqRetries: 5}
+		cfg := agent.Cfg{N4Addr: p.N4Addr, Datapath: "bess", LogLevel: "warn", ReadTimeout: 120, RespTimeout: "2s", MaxReqRetries: 5}
 		if p.Alloc == 2 || (p.Alloc == 1 && rng.Intn(2) == 0) {
 			cfg.UEIPAlloc = true
 			ln := 24
